@@ -24,7 +24,8 @@ def extra(chk, res, tier, seed):
             for i, f in enumerate(sorted(glob.glob(os.path.join(chk.VERIF, "replays", "C14", "*.case")))):
                 open(os.path.join(corpus, "seed%d" % i), "wb").write(case_to_bytes(f))
         s = (seed * 1000 + k) % (2**31 - 1) or 1
-        p = subprocess.run([exe, corpus, "-runs=%d" % runs, "-seed=%d" % s, "-max_len=720", "-artifact_prefix=" + d + "/", "-print_final_stats=1", "-verbosity=0"],
+        tl = ["-max_total_time=%d" % int(os.environ.get("VERIF_THOROUGH_BUDGET_S", "900"))] if tier == "thorough" else []
+        p = subprocess.run([exe, corpus, "-runs=%d" % runs, "-seed=%d" % s, "-max_len=720"] + tl + [ "-artifact_prefix=" + d + "/", "-print_final_stats=1", "-verbosity=0"],
                            stdout=subprocess.PIPE, stderr=subprocess.PIPE, text=True, env=chk.child_env())
         m = re.search(r"stat::number_of_executed_units:\s*(\d+)", p.stderr)
         return k, d, int(m.group(1)) if m else 0, p.returncode, p.stderr[-1500:]
